@@ -145,6 +145,10 @@ class DeclStream(Stream):
                 e["perm_seed"] = rng.randint(0, 10 ** 9)
                 e["shuffle"] = True
                 e["style"] = rng.choice(["ctor", "with"])
+                # declaring part of the circuit as monitors changes nothing but the elimination order
+                nc = len(e["comps"])
+                if nc >= 3 and rng.random() < 0.3:
+                    e["mon"] = sorted(rng.sample(range(nc), rng.randint(1, nc - 2)))
                 out.append(e)
         return out
 
@@ -152,6 +156,8 @@ class DeclStream(Stream):
         names = [x[2] for x in d["expo"]]
         try:
             sol, sts = netlib.build(d, shuffle=True)
+            for i in d.get("mon", []):
+                sol.monitor_structure(sts[i], name=f"M{i}")
             mod = sol.solve()
             obs = netlib.obs_matrix_lit(netlib.observe_expo(mod, names))
         except Exception:
@@ -162,10 +168,15 @@ class DeclStream(Stream):
         return len(d["comps"]) >= 2 and len(d["conns"]) >= 1
 
     def classify(self, d):
-        return "c%d/l%d/%s" % (len(d["comps"]), len(d["conns"]), d["style"])
+        return "c%d/l%d/%s%s" % (len(d["comps"]), len(d["conns"]), d["style"], "/mon" if d.get("mon") else "")
 
     def shrink(self, d):
-        return netlib.shrink_netlist(d)
+        out = []
+        for e in netlib.shrink_netlist(d):
+            if len(e["comps"]) != len(d["comps"]):
+                e.pop("mon", None)          # component numbering changed
+            out.append(e)
+        return out
 
 
 TRUSTED = [
